@@ -170,7 +170,12 @@ def ident_site(repo: Repo) -> List[Ob]:
             if isinstance(probe, ast.Attribute) and probe.attr in ("uid", "_uid", "composite_uid"):
                 continue      # uuids compare by value, which *is* identity
             sites += 1
-            key = f"{how}:probe={src(probe)}|container={src(cont)}"
+            # a loop variable is named by its role, not by the identifier the author happened to choose (a rename is not a new site)
+            ptxt = src(probe)
+            if isinstance(probe, ast.Name) and probe.id not in fi.params and any(
+                    isinstance(l_, (ast.For, ast.comprehension)) and any(isinstance(t_, ast.Name) and t_.id == probe.id for t_ in ast.walk(l_.target)) for l_ in ast.walk(fi.node)):
+                ptxt = "<loopvar>"
+            key = f"{how}:probe={ptxt}|container={src(cont)}"
             if not veq:
                 obs.append(ok("IDENT-site", fi, key, props, n, "no state class has value equality"))
                 continue
